@@ -118,6 +118,7 @@ func c25String(r *rand.Rand, forFields bool) (string, []string) {
 			if r.IntN(3) == 0 {
 				sb.WriteString([]string{"${", "${a", "$((1+", "\"open", "'open", "${a:-", "${a%", "$(("}[r.IntN(8)])
 				tags["unclosed"] = true
+				n = 1 // nothing follows: what would close it is a matter of each shell's scanner
 			}
 		case 18:
 			sb.WriteString([]string{"${" + v() + "?}", "${" + v() + ":?msg}"}[r.IntN(2)])
@@ -161,7 +162,7 @@ func (p *c25) Gen(i int, r *rand.Rand) any {
 			continue // ${x~pat}: an undocumented bash operator
 		}
 		if k%2 == 0 {
-			if p.env.Findings.Carved("C25-tilde-after-equals-sign") && strings.Contains(s, "=~") {
+			if p.env.Findings.Carved("C25-tilde-after-equals-sign") && (strings.Contains(s, "=~") || strings.Contains(s, "~:") || strings.Contains(s, ":~")) {
 				continue
 			}
 			if c25LoneDollar.MatchString(s) {
